@@ -290,6 +290,18 @@ func (s *IndexedState) add(ctx *Context, id string, x Map) (string, error) {
 	if err != nil {
 		return id, err
 	}
+
+	// If we are overwriting a rule, then that rule's pattern has
+	// to leave the rule index -- whatever we are about to store
+	// under this id.
+	if previous, have := s.IdToFact[id]; have {
+		if previousRule, _ := ExtractRule(ctx, previous, false); previousRule != nil {
+			if err = s.unindexRule(ctx, id, previousRule); err != nil {
+				return "", err
+			}
+		}
+	}
+
 	if rule != nil {
 		// ToDo: Metric(ctx, "RuleUpdated", "location", s.Name, "ruleId", id)
 		Log(DEBUG, ctx, "IndexedState.add", "state", s.Name, "rule", rule, "ruleId", id)
@@ -349,13 +361,6 @@ func (s *IndexedState) indexRule(ctx *Context, id string, rule map[string]interf
 	patterns := GetRulePatterns(ctx, rule)
 	if nil == patterns {
 		return NewSyntaxError("No 'when' in rule.")
-	}
-
-	_, have := s.IdToFact[id]
-	if have {
-		if err := s.unindexRule(ctx, id, rule); err != nil {
-			return err
-		}
 	}
 
 	for _, m := range patterns {
